@@ -7,13 +7,13 @@ META = {
     "requests for paths chosen by symbolic index are rendered through the real Site.render_to_pipe; a reference router written "
     "from the statement (exact match, else longest proper non-empty prefix with a nested site, recursively, else 4.04) predicts "
     "the handling resource, the remaining path it sees and the original request URI it can reconstruct. The /.well-known/core "
-    "listing and single-parameter RFC 6690 filter queries (exact and prefix patterns on rt, if, ct, href) are compared with a "
-    "reference computed from the registration list.",
+    "listing and RFC 6690 filter queries (exact and prefix patterns on rt, if, ct, href; one parameter, and two parameters that both "
+    "have to match) are compared with a reference computed from the registration list.",
     "trusted_base": ["reference router / reference link filter in the harness", "vf.simloop.SimLoop", "pipe-level driver"],
     "assumptions": [
         "a plain resource and a nested site may share a path (documented); removing one of such a pair is documented as unsupported and excluded",
         "nested sites at non-empty paths (a site registered at the root of another site is not a supported layout)",
-        "one filter parameter per query (RFC 6690 4.1 defines a single search parameter)",
+        "filter queries with one parameter (RFC 6690 4.1) over the full catalogue; with two parameters (conjunction) over 11 x 11 pairs",
     ],
 }
 
